@@ -855,12 +855,26 @@ func r2(w *World, r *Report) {
 	inf := needFn(r, "R-2", w, fref{"node", "RigoApp", "Info"})
 	if inf != nil {
 		st, _ := w.findStoreDeep(inf, "recv.lastBlockCtx", "recv.metaDB.LastBlockContext()")
+		if st == nil {
+			// the loading moved into a helper that hands the context back
+			for _, g := range w.withModuleCallees(inf, 2) {
+				for _, s2 := range w.storesTo(g, "recv.lastBlockCtx") {
+					for _, c := range w.mayCanons(s2.Val, 4) {
+						if c == "recv.metaDB.LastBlockContext()" {
+							st = s2
+						}
+					}
+				}
+			}
+		}
 		r.Check(st != nil, "R-2", "RigoApp.Info:loads-context", "Info loads the persisted block context", "Info does not load the persisted block context", fnSite(w, inf))
 		// height and hash reported come from it
 		okRet := false
-		for _, fs := range w.fieldStores(inf) {
-			if fs.Field.Name() == "LastBlockAppHash" && (strings.Contains(w.Canon(fs.Val), "recv.lastBlockCtx.AppHash()") || strings.Contains(w.Canon(fs.Val), "recv.metaDB.LastBlockContext().AppHash()")) {
-				okRet = true
+		for _, g := range w.withModuleCallees(inf, 2) {
+			for _, fs := range w.fieldStores(g) {
+				if fs.Field.Name() == "LastBlockAppHash" && containsAny(w.mayCanons(fs.Val, 4), "recv.lastBlockCtx.AppHash()", "recv.metaDB.LastBlockContext().AppHash()") {
+					okRet = true
+				}
 			}
 		}
 		r.Check(okRet, "R-2", "RigoApp.Info:reports-persisted", "the reported app hash is the persisted one", "Info does not report the persisted app hash", fnSite(w, inf))
@@ -874,7 +888,7 @@ func r2(w *World, r *Report) {
 	}
 	pt := needFn(r, "R-2", w, fref{pkgCT, "MetaDB", "put"})
 	if pt != nil {
-		c := w.findCallMatch(pt, mustRe(`^recv\.db\.SetSync\(\[\]byte\(p0\), p1\)$`))
+		c := w.findCallMatchI(pt, mustRe(`^recv\.db\.SetSync\(\[\]byte\(p0\), p1\)$`))
 		r.Check(len(c) == 1, "R-2", "MetaDB.put:durable", "meta records are written with SetSync", "MetaDB.put is not a synchronous write of (key, value)", fnSite(w, pt))
 	}
 	// BlockContext codec symmetric
@@ -1011,12 +1025,14 @@ func r2(w *World, r *Report) {
 	if ne != nil {
 		okH, okR := false, false
 		for _, fs := range w.fieldStores(ne) {
-			c := w.Canon(fs.Val)
-			switch fs.Field.Name() {
-			case "lastBlockHeight":
-				okH = strings.Contains(c, "strconv.ParseInt(string(") && strings.Contains(c, ".Get(evm.lastBlockHeightKey)#0")
-			case "lastRootHash":
-				okR = strings.Contains(c, ".Get(evm.blockKey(") && strings.HasSuffix(c, "#0")
+			// the loading may sit in a helper that hands height and root back
+			for _, c := range w.mayCanons(fs.Val, 3) {
+				switch fs.Field.Name() {
+				case "lastBlockHeight":
+					okH = okH || strings.Contains(c, "strconv.ParseInt(string(") && strings.Contains(c, ".Get(evm.lastBlockHeightKey)#0")
+				case "lastRootHash":
+					okR = okR || strings.Contains(c, ".Get(evm.blockKey(") && strings.HasSuffix(c, "#0")
+				}
 			}
 		}
 		r.Check(okH && okR, "R-2", "NewEVMCtrler:height-and-root", "the constructor reloads the persisted height and the root recorded for it", "the EVM controller does not start from the persisted height and its state root", fnSite(w, ne))
@@ -1026,7 +1042,10 @@ func r2(w *World, r *Report) {
 	if ng != nil {
 		ok := false
 		for _, fs := range w.fieldStores(ng) {
-			if fs.Field.Name() == "GovParams" && strings.Contains(w.CanonDeep(fs.Val), ".Get("+w.govParamsKeyCanon()+")#0") {
+			if os.Getenv("RIGOCHECK_DEBUG") == "ngp" && fs.Field.Name() == "GovParams" {
+				fmt.Fprintln(os.Stderr, "NGP", w.govParamsKeyCanon(), w.mayCanons(fs.Val, 4))
+			}
+			if fs.Field.Name() == "GovParams" && (strings.Contains(w.CanonDeep(fs.Val), ".Get("+w.govParamsKeyCanon()+")#0") || containsAny(w.mayCanons(fs.Val, 4), ".Get("+w.govParamsKeyCanon()+")#0")) {
 				ok = true
 			}
 		}
@@ -1212,6 +1231,44 @@ func (w *World) durableStepsOnPaths(fn *ssa.Function) ([]durableStep, string) {
 		f := in.Parent()
 		for f != nil && f.Parent() != nil {
 			f = f.Parent()
+		}
+		// a store handed to a helper as a parameter keeps the name it has at the
+		// helper's call sites (when they agree)
+		if f != nil && len(s) > 2 && s[0] == 'p' && s[1] >= '0' && s[1] <= '9' && (s[2] == '.' || s[2] == '[') {
+			k := int(s[1] - '0')
+			if f.Signature.Recv() != nil {
+				k++
+			}
+			if k < len(f.Params) {
+				isCtrl := false
+				if n, ok := deref(f.Params[k].Type()).(*types.Named); ok && q6Owners[n.Obj().Name()] {
+					isCtrl = true
+				}
+				if !isCtrl {
+					name := ""
+					agree := true
+					for _, cs := range w.nodeCallers(f) {
+						if cs.Site == nil || cs.Site.Common().IsInvoke() || k >= len(cs.Site.Common().Args) {
+							agree = false
+							break
+						}
+						as := ownFrame(func() string { return w.CanonDeep(cs.Site.Common().Args[k]) })
+						if !strings.HasPrefix(as, "recv.") {
+							agree = false
+							break
+						}
+						nm := ownerOf(cs.Caller) + "." + strings.TrimPrefix(as, "recv.") + s[2:]
+						if name != "" && name != nm {
+							agree = false
+							break
+						}
+						name = nm
+					}
+					if agree && name != "" {
+						return name
+					}
+				}
+			}
 		}
 		if strings.HasPrefix(s, "p0.") && f != nil && f.Signature.Recv() == nil {
 			return owner + "." + strings.TrimPrefix(s, "p0.")
@@ -1822,6 +1879,9 @@ func u1(w *World, r *Report) {
 			if ret, isR := lastInstr(b).(*ssa.Return); isR {
 				c := w.Canon(ret.Results[0])
 				ok = c == "p0[:libs.MIN(len(p0), p1)]" || c == "p0[:libs.MIN(p1, len(p0))]"
+				if sl, isSl := stripConv(ret.Results[0]).(*ssa.Slice); !ok && isSl && sl.Low == nil && sl.Max == nil && sl.High != nil && w.Canon(sl.X) == "p0" {
+					ok = w.isMinOf(sl.High, "len(p0)", "p1")
+				}
 			}
 		}
 		r.Check(ok, "U-1", "selectValidators:top-n", "the first min(len, maxVals) of the power-sorted candidates", "selectValidators is not the first min(len, maxVals) candidates", fnSite(w, sv))
